@@ -27,12 +27,19 @@ type world struct {
 	G, H kyber.Point
 }
 
+// fixedRand makes the prover randomness a fixed tape: every RandomStream() call
+// returns a fresh stream from the same seed (the default suites draw from
+// crypto/rand, so a re-run of a case would otherwise see another proof).
+type fixedRand struct{ shuffle.Suite }
+
+func (f fixedRand) RandomStream() cipher.Stream { return alpha.Stream("c15-prover-randomness") }
+
 func newWorld(gn string) *world {
 	w := &world{gn: gn, q: groups.ByName(gn).Order}
 	if gn == "p256" {
-		w.s = p256.NewBlakeSHA256P256()
+		w.s = fixedRand{p256.NewBlakeSHA256P256()}
 	} else {
-		w.s = edwards25519.NewBlakeSHA256Ed25519()
+		w.s = fixedRand{edwards25519.NewBlakeSHA256Ed25519()}
 	}
 	w.h = alpha.Rand("c15-h", w.q)
 	w.G = w.s.Point().Base()
